@@ -1,19 +1,10 @@
-"""Regenerates MANIFEST.json from the table below (run by hand after adding a property)."""
+"""Regenerates MANIFEST.json from the per-property fragments harness/manifest/Cxx.json
+(keys: text, note, technique, design).  Run by hand after adding a property."""
 import json
 from pathlib import Path
 
-CHECKS = {
-    "C17": dict(
-        text="Proof (Coq, closed under the global context) over every history of requests through one transport: under the "
-             "executable guard (no API key in query/cookie [F17a]; no header names differing only in case [F17b]) the wire "
-             "request equals the documented case-insensitive merge (C17_partial, induction over sessions with OAuth2 state); "
-             "the full statement is refuted on the faithful model by two vm_compute witnesses (C17_refuted_F17a/b) that replay "
-             "on the implementation. Model tied to the code by differential runs under httpx.MockTransport on every check.",
-        note="Trusts: Coq kernel+vm_compute; the hand-written model Model/Transport.v (validated only on the generated cases); "
-             "translator for string literals; httpx header/param/cookie encoding as observed through MockTransport.",
-        technique="Coq proof (induction over request histories, simulation invariant) + model/impl differential correspondence",
-        design="§3 C17"),
-}
+HERE = Path(__file__).resolve().parent
+CHECKS = {p.stem: json.loads(p.read_text()) for p in sorted((HERE / "manifest").glob("C*.json"))}
 ALL = [f"C{i:02d}" for i in range(1, 21)]
 PENDING_REASON = "check not built yet in this snapshot (planned per DESIGN.md §8); not claimed until its model, theorems and correspondence run exist"
 
@@ -48,7 +39,7 @@ def main() -> None:
         "not_applicable": [{"property_id": p, "reason": PENDING_REASON} for p in ALL if p not in CHECKS],
         "notes": "See DESIGN.md. known_findings.json lists genuine defects of the unchanged tree (KNOWN-FINDING lines).",
     }
-    Path("/verif/MANIFEST.json").write_text(json.dumps(m, indent=1) + "\n")
+    (HERE.parent / "MANIFEST.json").write_text(json.dumps(m, indent=1) + "\n")
 
 
 if __name__ == "__main__":
